@@ -841,6 +841,58 @@ func vrfC11ClientScript(h *vrfCli, rng *rand.Rand, d *vrfC11Desc) {
 			d.note("window of s=%d does not settle (rest %d): no overflow", rq.id, room)
 			return
 		}
+		if !sameWrite && rng.IntN(3) == 0 {
+			// ---- variant: the excess arrives on a stream whose DATA the Transport does not deliver
+			// to any body (a response that has ended, or one the application has abandoned): it
+			// still counts against the connection window.
+			how := vsrvPick(rng, "ended", "ended", "cancelled")
+			rz := h.start("GET")
+			if !h.settle() || rz.id == 0 {
+				return
+			}
+			if how == "ended" {
+				h.headers(rz, 200, 0, true)
+			} else {
+				h.headers(rz, 200, -1, false)
+			}
+			if !h.settle() {
+				return
+			}
+			if done, err, _ := rz.roundTripState(); !done || err != nil {
+				viol("response-not-delivered", "RoundTrip of %s did not return the response (done=%v err=%v)", rz.tag, done, err)
+				return
+			}
+			if how == "cancelled" {
+				rz.app.send(vrfCmd{'x', 0}) // the application closes the body: RST_STREAM(CANCEL)
+				if !h.settle() {
+					return
+				}
+			}
+			conn, _, mf = h.view(rq.id)
+			if conn+1 > mf {
+				d.note("connection window %d too large for one excess frame on a discarded stream", conn)
+				return
+			}
+			smp = h.sample()
+			n := int(min(conn+1+rng.Int64N(64), mf))
+			rz.taint = "excess"
+			sc.send(h.dataFrame(nil, rz, n, -1, false))
+			d.note("overflow of the connection window (%d) by a %d-byte DATA frame on %s stream %d (client belief avail=%d unsent=%d)", conn, n, how, rz.id, smp.avail, smp.unsent)
+			h.settle()
+			if rep, how2 := connFlowErr(); !rep {
+				viol("overflow-not-rejected:connection-window-on-"+how+"-stream", "the peer had %d bytes of connection window left and sent a DATA frame of %d bytes on stream %d, whose response had %s; the client did not fail the connection with FLOW_CONTROL_ERROR (connection closed by client: %v, read loop error: %v; client's belief before: avail=%d unsent=%d)", conn, n, rz.id, how, sc.NC.clientClosed(), h.CC.readerErr, smp.avail, smp.unsent)
+			} else {
+				d.overflows++
+				h.R.Event("client_overflow_of_connection_window_on_"+how+"_stream", 1)
+				h.R.Event("client_overflow_answered_with_connection_error_"+how2, 1)
+			}
+			rq.app.send(vrfCmd{'A', 1 << 20})
+			synctest.Wait()
+			if read, _, _, _, _ := rq.app.snapshot(); read > accepted {
+				viol("excess-bytes-delivered", "request %s (stream %d): %d body bytes were sent within the window, the application received %d", rq.tag, rq.id, accepted, read)
+			}
+			return
+		}
 		n, pad := vrfOverflowFrame(rng, mf, false)
 		if room > 0 && !sameWrite {
 			n, pad = int(min(room+1+rng.Int64N(64), mf)), -1
